@@ -78,13 +78,15 @@ STRS = [
     "a", "", "b", "c", "abc", "1", "0", "-3", "2.5", "1e3", "3", "-12", " 7 ",
     "true", "True", "TRUE", "false", "False", "FALSE", "none", "50%", "%d", "%(a)s",
     "x y", "A", "<b>", "&amp", "path", "\\path", "type", "1.5", "٣x", "tRuE",
+    "+3", "1_0", "1.", ".5", "0x1", "١٢", "a.b", "a/b", "a\\b", ".", "/", "ß", "İ", "ǅ", "Straße", "TRUE\n",
+    "x" * 40, "long string " * 20,
 ]
 CHARS = "ab1 %<&\"'`.\\/AZ09-_é٣x"
-INTS = [0, 1, -1, 2, 3, 5, 7, 10, 12, -4, 100, 2**31, -(2**31), 2**62, -(2**62)]
+INTS = [0, 1, -1, 2, 3, 5, 7, 10, 12, -4, 100, 2**31, -(2**31), 2**62, -(2**62), 2**63 - 1, -(2**63), 255, 256, 1000]
 SMALL_INTS = [0, 1, -1, 2, 3, 5, 7, 10, 12, -4]
-FLOATS = [0.0, 1.0, -1.5, 2.5, 1e-9, 3.0, 0.5, 1e300, -0.0]
+FLOATS = [0.0, 1.0, -1.5, 2.5, 1e-9, 3.0, 0.5, 1e300, -0.0, 1e3, 2.0**53, -2.0, 1e-300]
 TYPES = [int, float, str, list, dict, bool]
-KEY_STRS = ["a", "b", "c", "abc", "1", "x y", "", "path", "A", "0", "true"]
+KEY_STRS = ["a", "b", "c", "abc", "1", "x y", "", "path", "A", "0", "true", "a.b", "a/b", "a\\b", "-1", "ß", "1.0"]
 
 
 def text(r):
@@ -147,6 +149,9 @@ def value(r, depth=2, sc=scalar):
     if depth <= 0 or c < (50 if depth < 2 else 35):
         return sc(r)
     n = 0 if r.pct() < 15 else r.between(1, 3)
+    if r.pct() < 3:
+        n = r.between(9, 20)  # a long nested container
+        depth = 1
     if c < 75:
         out = [value(r, depth - 1, sc) for _ in range(n)]
         if n and r.pct() < 10:
@@ -214,8 +219,10 @@ def twin_path(r, path):
 def list_doc(r, depth=3, sc=scalar):
     if r.pct() < 4:
         # occasionally a long, flat container (size-dependent behaviour, e.g. a fast path)
-        return [sc(r) for _ in range(r.between(9, 24))]
+        return [sc(r) for _ in range(r.between(9, 40))]
     out = [value(r, depth - 1, sc) for _ in range(r.between(1, 4))]
+    if r.pct() < 10:
+        out.insert(r.below(len(out) + 1), r.choice(out))  # a duplicate item (the same object twice)
     if r.pct() < 15:
         t = twin(r, out)
         if t is not None:
